@@ -14,23 +14,14 @@ Lemma maildir_ok_set_box bs n b b' :
   Forall (fun m => subset (m_flags m) (b_perm b) = true) (b_msgs b') ->
   maildir_ok (set_box n b' bs).
 Proof.
-  intros (P & Hw & Hf) Hl Hp HF. exists P. split; [exact Hw|].
-  apply Forall_set_box; [exact Hf|]. destruct (Forall_lookup (flags_in P) _ _ _ Hf Hl) as [HP _].
-  split; [congruence|]. rewrite <- HP. exact HF.
+  intros Hf Hl Hp HF. apply Forall_set_box; [exact Hf|].
+  destruct (Forall_lookup flags_in _ _ _ Hf Hl) as [Hw _].
+  split; rewrite Hp; assumption.
 Qed.
 
 Lemma maildir_flags bs n b : maildir_ok bs -> lookup n bs = Some b ->
   mem FWild (b_perm b) = false /\ Forall (fun m => subset (m_flags m) (b_perm b) = true) (b_msgs b).
-Proof.
-  intros (P & Hw & Hf) Hl. destruct (Forall_lookup (flags_in P) _ _ _ Hf Hl) as [-> HF]. split; assumption.
-Qed.
-
-Lemma maildir_same_perm bs n1 n2 b1 b2 : maildir_ok bs ->
-  lookup n1 bs = Some b1 -> lookup n2 bs = Some b2 -> b_perm b1 = b_perm b2.
-Proof.
-  intros (P & Hw & Hf) H1 H2. destruct (Forall_lookup (flags_in P) _ _ _ Hf H1) as [-> _].
-  destruct (Forall_lookup (flags_in P) _ _ _ Hf H2) as [-> _]. reflexivity.
-Qed.
+Proof. intros Hf Hl. exact (Forall_lookup flags_in _ _ _ Hf Hl). Qed.
 
 Lemma first_unseen_clear k l : first_unseen_from k (map clear_recent l) = first_unseen_from k l.
 Proof.
@@ -224,7 +215,7 @@ Proof.
     + repeat constructor; lia.
 Qed.
 
-Lemma box_ok_delivered ds cs : forall d, box_ok d -> box_ok (delivered d ds cs).
+Lemma box_ok_delivered bk ds cs : forall d, box_ok d -> box_ok (delivered bk d ds cs).
 Proof.
   induction cs as [|c r IH]; intros d Hd.
   - unfold delivered. cbn [copies_from length]. rewrite app_nil_r, N.add_0_r.
@@ -245,79 +236,6 @@ Proof. apply filter_all. reflexivity. Qed.
 
 Lemma expunge_lines_none l : expunge_lines l (fun _ _ => negb true) = [].
 Proof. unfold expunge_lines. rewrite filter_none by reflexivity. reflexivity. Qed.
-
-Lemma sim_append st box fl date cid : Inv st -> sim_ok st (CAppend box fl date cid).
-Proof.
-  intros HI. unfold sim_ok. cbn [step spec_step]. unfold do_append, spec_append.
-  cbn [abs sp_sel sp_boxes sp_bk].
-  destruct (lookup box (st_boxes st)) as [b|] eqn:El; [|trivial_sim HI].
-  destruct (b_ro b) eqn:Ero; [trivial_sim HI|].
-  assert (Eds : sdest_selected (abs st) box = dest_selected st box).
-  { unfold sdest_selected, dest_selected, abs. cbn [sp_sel]. destruct (st_sel st); reflexivity. }
-  rewrite Eds. cbn [mb_add]. rewrite ?Ero.
-  set (u := b_maxuid b + 1).
-  set (ds := dest_selected st box).
-  set (m := mkMsg u (storable (st_bk st) (b_perm b) (diff fl [FRecent])) date cid (negb ds)).
-  set (b' := mkBox (b_msgs b ++ [m]) u false (b_perm b)).
-  destruct HI as (Hb & Hm & Hs).
-  pose proof (Forall_lookup box_ok _ _ _ Hb El) as Hok.
-  assert (Hok' : box_ok b').
-  { pose proof (box_ok_add b (m_flags m) date cid (negb ds) Hok) as H.
-    unfold mb_add, box_ok in *. cbn [fst b_msgs b_maxuid b'] in *. exact H. }
-  assert (Hboxes : Forall (fun nb => box_ok (snd nb)) (set_box box b' (st_boxes st)))
-    by (apply Forall_set_box; assumption).
-  assert (Hmd' : st_bk st = Maildir -> maildir_ok (set_box box b' (st_boxes st))).
-  { intros Hk. apply (maildir_ok_set_box _ _ b); [apply Hm, Hk|exact El|reflexivity|].
-    cbn [b' b_msgs]. destruct (maildir_flags _ _ _ (Hm Hk) El) as [_ HF].
-    apply Forall_app. split; [exact HF|]. constructor; [|constructor].
-    cbn [m m_flags]. apply storable_sub, Hk. }
-  destruct (st_sel st) as [s|] eqn:Es; cbn [option_map].
-  2:{ (* nothing selected *) cbn [fst snd]. split; [reflexivity|split; [reflexivity|]].
-      split; [exact Hboxes|split; [exact Hmd'|exact I]]. }
-  cbn [abs_sel ss_box ss_ro ss_recent].
-  destruct Hs as (sb & Hls & Hv & Hp). rewrite Hls.
-  destruct (s_box s =? box) eqn:Ebox.
-  - (* delivered into the selected mailbox *)
-    apply N.eqb_eq in Ebox. subst box. rewrite El in Hls. inversion Hls; subst sb.
-    rewrite lookup_set_box_same, El.
-    set (rec := if ds then add_recent u (s_recent s) else s_recent s).
-    assert (Hfin := finish_remove_add b' s (fun _ => true) [m] rec false []).
-    rewrite Hv in Hfin. specialize (Hfin (box_ok_NoDup b Hok)).
-    rewrite filter_true in Hfin. specialize (Hfin eq_refl).
-    assert (Hfresh : ~ In u (uids_of (b_msgs b))) by (apply (fresh_uid b u Hok); unfold u; lia).
-    specialize (Hfin (fun x Hx => ltac:(destruct Hx as [<-|[]]; exact Hfresh))).
-    assert (Hr : forall x, In x (b_msgs b) -> true = true -> memN (m_uid x) rec = true ->
-                           memN (m_uid x) (s_recent s) = true).
-    { intros x Hx _. unfold rec. destruct ds; [|auto]. rewrite memN_add_recent.
-      destruct (m_uid x =? u) eqn:E; [|rewrite orb_false_r; auto].
-      apply N.eqb_eq in E. exfalso. apply Hfresh. rewrite <- E. apply in_map, Hx. }
-    specialize (Hfin Hr eq_refl). cbn zeta in Hfin.
-    rewrite finish_rec_keep in Hfin.
-    2:{ intros x Hx. cbn [b' b_msgs]. rewrite uids_of_app. apply in_or_app. left. exact Hx. }
-    rewrite Hfin. clear Hfin. rewrite expunge_lines_none. cbn [app fst snd b' b_msgs].
-    split; [reflexivity|split; [reflexivity|]].
-    split; [exact Hboxes|split; [exact Hmd'|]]. unfold set_sel. cbn [st_sel st_boxes].
-    exists b'. cbn [s_box s_view s_perm]. rewrite lookup_set_box_same, El. repeat split. exact Hp.
-  - (* delivered elsewhere: the selection sees nothing *)
-    apply N.eqb_neq in Ebox. rewrite lookup_set_box_other by congruence. rewrite Hls.
-    assert (Eds' : ds = false).
-    { unfold ds, dest_selected. rewrite Es. apply andb_false_iff. right. apply N.eqb_neq, Ebox. }
-    rewrite Eds'.
-    pose proof (Forall_lookup box_ok _ _ _ Hb Hls) as Hoks.
-    assert (Hfin := finish_remove_add sb s (fun _ => true) [] (s_recent s) false []).
-    rewrite Hv in Hfin. specialize (Hfin (box_ok_NoDup sb Hoks)).
-    rewrite filter_true, app_nil_r in Hfin.
-    specialize (Hfin eq_refl (fun x H => match H with end) (fun x _ _ H => H) eq_refl).
-    cbn zeta in Hfin. rewrite finish_rec_keep in Hfin by auto.
-    rewrite Hfin. clear Hfin. rewrite expunge_lines_none, arrivals_none. cbn [app].
-    unfold recent_line. rewrite N.eqb_refl. cbn [fst snd].
-    split; [reflexivity|split].
-    + unfold abs, set_sel, sset. cbn [st_bk st_boxes st_sel option_map abs_sel s_box s_ro s_recent].
-      reflexivity.
-    + split; [exact Hboxes|split; [exact Hmd'|]]. unfold set_sel. cbn [st_sel st_boxes].
-      exists sb. cbn [s_box s_view s_perm]. rewrite lookup_set_box_other by congruence.
-      repeat split; assumption.
-Qed.
 
 (* ------------------------------------------------------------- COPY, MOVE *)
 Lemma selected_In {A} (P : N * A -> bool) k l c :
@@ -357,17 +275,17 @@ Proof.
   rewrite combine_fst, combine_snd by (rewrite !map_length; lia). reflexivity.
 Qed.
 
-Lemma copies_fresh b' u rc cs m : box_ok b' -> b_maxuid b' < u ->
-  In m (copies_from u rc cs) -> ~ In (m_uid m) (uids_of (b_msgs b')).
+Lemma copies_fresh bk P b' u rc cs m : box_ok b' -> b_maxuid b' < u ->
+  In m (copies_from bk P u rc cs) -> ~ In (m_uid m) (uids_of (b_msgs b')).
 Proof.
   intros Hok Hu Hm. apply copies_uids_gt in Hm. apply (fresh_uid b' _ Hok). lia.
 Qed.
 
-Lemma copies_flags u rc cs P : Forall (fun m => subset (m_flags m) P = true) cs ->
-  Forall (fun m => subset (m_flags m) P = true) (copies_from u rc cs).
+Lemma copies_flags bk P u rc cs : bk = Maildir ->
+  Forall (fun m => subset (m_flags m) P = true) (copies_from bk P u rc cs).
 Proof.
-  revert u. induction cs as [|c r IH]; intros u H; cbn [copies_from]; [constructor|].
-  inversion H; subst. constructor; [assumption|apply IH; assumption].
+  intros Hk. revert u. induction cs as [|c r IH]; intros u; cbn [copies_from]; [constructor|].
+  constructor; [cbn [m_flags]; apply storable_sub, Hk|apply IH].
 Qed.
 
 Lemma sim_copy st uid ss dest : Inv st -> sim_ok st (CCopy uid ss dest).
@@ -388,39 +306,37 @@ Proof.
   assert (Eds : sdest_selected (abs st) dest = dest_selected st dest).
   { unfold sdest_selected, dest_selected, abs. cbn [sp_sel]. rewrite Es. reflexivity. }
   set (ds := dest_selected st dest).
-  rewrite (copy_loop_copy (s_box s) dest ds pairs (st_boxes st) (s_recent s) d Ed).
+  rewrite (copy_loop_copy (st_bk st) (s_box s) dest ds pairs (st_boxes st) (s_recent s) d Ed).
   2:{ intros c Hc. exists b. split; [exact Hl|]. apply find_msg_In; [exact Hnd|apply Hcs, Hc]. }
-  unfold deliver. rewrite Eds. fold ds. cbn [sp_boxes abs ss_recent abs_sel].
+  unfold deliver. rewrite Eds. fold ds. cbn [sp_boxes sp_bk abs ss_recent abs_sel].
   fold cs.
-  set (new := copies_from (b_maxuid d + 1) (negb ds) cs).
+  set (new := copies_from (st_bk st) (b_perm d) (b_maxuid d + 1) (negb ds) cs).
   set (rec := if ds then fold_left (fun r u => add_recent u r) (uids_of new) (s_recent s) else s_recent s).
-  change (mkBox (b_msgs d ++ new) (b_maxuid d + N.of_nat (length cs)) (b_ro d) (b_perm d))
-    with (delivered d ds cs).
+  change (mkBox (b_msgs d ++ new) (b_maxuid d + N.of_nat (length cs)) (b_ro d) (b_perm d) (b_uidv d))
+    with (delivered (st_bk st) d ds cs).
   rewrite copy_code_spec by apply copies_length.
   destruct HI as (Hb & Hm & _).
   pose proof (Forall_lookup box_ok _ _ _ Hb Ed) as Hokd.
-  assert (Hboxes : Forall (fun nb => box_ok (snd nb)) (set_box dest (delivered d ds cs) (st_boxes st)))
+  assert (Hboxes : Forall (fun nb => box_ok (snd nb)) (set_box dest (delivered (st_bk st) d ds cs) (st_boxes st)))
     by (apply Forall_set_box; [exact Hb|apply box_ok_delivered, Hokd]).
-  assert (Hmd' : st_bk st = Maildir -> maildir_ok (set_box dest (delivered d ds cs) (st_boxes st))).
+  assert (Hmd' : st_bk st = Maildir -> maildir_ok (set_box dest (delivered (st_bk st) d ds cs) (st_boxes st))).
   { intros Hk. apply (maildir_ok_set_box _ _ d); [apply Hm, Hk|exact Ed|reflexivity|].
     cbn [delivered b_msgs]. destruct (maildir_flags _ _ _ (Hm Hk) Ed) as [_ HF].
-    apply Forall_app. split; [exact HF|]. apply copies_flags.
-    rewrite (maildir_same_perm _ _ _ _ _ (Hm Hk) Ed Hl).
-    destruct (Hmd Hk) as [_ HFb]. rewrite Forall_forall in *. intros c Hc. apply HFb, Hcs, Hc. }
+    apply Forall_app. split; [exact HF|]. apply copies_flags, Hk. }
   destruct (s_box s =? dest) eqn:Ebox.
   - (* into the selected mailbox itself *)
     apply N.eqb_eq in Ebox. subst dest. rewrite Hl in Ed. inversion Ed; subst d.
     rewrite lookup_set_box_same, Hl.
-    assert (Hfin := finish_remove_add (delivered b ds cs) s (fun _ => true) new rec uid []).
+    assert (Hfin := finish_remove_add (delivered (st_bk st) b ds cs) s (fun _ => true) new rec uid []).
     rewrite Hv in Hfin. specialize (Hfin Hnd). rewrite filter_true in Hfin. specialize (Hfin eq_refl).
     assert (Hlt : b_maxuid b < b_maxuid b + 1) by lia.
-    specialize (Hfin (fun x Hx => copies_fresh b _ _ _ x Hok Hlt Hx)).
+    specialize (Hfin (fun x Hx => copies_fresh _ _ b _ _ _ x Hok Hlt Hx)).
     assert (Hr : forall x, In x (b_msgs b) -> true = true -> memN (m_uid x) rec = true ->
                            memN (m_uid x) (s_recent s) = true).
     { intros x Hx _. unfold rec. destruct ds; [|auto]. rewrite memN_fold_add_recent.
       replace (memN (m_uid x) (uids_of new)) with false; [rewrite orb_false_r; auto|].
       symmetry. apply memN_false. intros Hi. unfold uids_of in Hi. apply in_map_iff in Hi.
-      destruct Hi as (n & En & Hn). apply (copies_fresh b _ _ _ n Hok Hlt Hn).
+      destruct Hi as (n & En & Hn). apply (copies_fresh _ _ b _ _ _ n Hok Hlt Hn).
       rewrite En. apply in_map, Hx. }
     specialize (Hfin Hr eq_refl). cbn zeta in Hfin.
     rewrite finish_rec_keep in Hfin.
@@ -428,7 +344,7 @@ Proof.
     rewrite Hfin. clear Hfin. rewrite expunge_lines_none. cbn [app fst snd delivered b_msgs].
     fold new. split; [reflexivity|split; [reflexivity|]].
     split; [exact Hboxes|split; [exact Hmd'|]]. unfold set_sel. cbn [st_sel st_boxes].
-    exists (delivered b ds cs). cbn [s_box s_view s_perm].
+    exists (delivered (st_bk st) b ds cs). cbn [s_box s_view s_perm].
     rewrite lookup_set_box_same, Hl. repeat split. exact Hp.
   - (* into another mailbox *)
     apply N.eqb_neq in Ebox. rewrite lookup_set_box_other by congruence. rewrite Hl.
@@ -492,36 +408,34 @@ Proof.
   set (ds := dest_selected st dest).
   destruct HI as (Hb & Hm & _).
   pose proof (Forall_lookup box_ok _ _ _ Hb Ed) as Hokd.
-  rewrite (copy_loop_move (s_box s) dest ds pairs (st_boxes st) (s_recent s) d b Ed Hl).
+  rewrite (copy_loop_move (st_bk st) (s_box s) dest ds pairs (st_boxes st) (s_recent s) d b Ed Hl).
   2:{ apply selected_NoDup, Hnd. }
   2:{ intros c Hc. apply find_msg_In; [exact Hnd|apply Hcs, Hc]. }
   2:{ intros E c Hc. rewrite E in Hl. rewrite Hl in Ed. inversion Ed; subst d.
       apply (uids_le_maxuid b c Hok), Hcs, Hc. }
-  unfold deliver. rewrite Eds. fold ds. cbn [sp_boxes abs ss_recent abs_sel]. fold cs.
-  set (new := copies_from (b_maxuid d + 1) (negb ds) cs).
+  unfold deliver. rewrite Eds. fold ds. cbn [sp_boxes sp_bk abs ss_recent abs_sel]. fold cs.
+  set (new := copies_from (st_bk st) (b_perm d) (b_maxuid d + 1) (negb ds) cs).
   set (rec := if ds then fold_left (fun r u => add_recent u r) (uids_of new) (s_recent s) else s_recent s).
-  change (mkBox (b_msgs d ++ new) (b_maxuid d + N.of_nat (length cs)) (b_ro d) (b_perm d))
-    with (delivered d ds cs).
+  change (mkBox (b_msgs d ++ new) (b_maxuid d + N.of_nat (length cs)) (b_ro d) (b_perm d) (b_uidv d))
+    with (delivered (st_bk st) d ds cs).
   rewrite copy_code_spec by apply copies_length.
-  set (bs1 := set_box dest (delivered d ds cs) (st_boxes st)).
+  set (bs1 := set_box dest (delivered (st_bk st) d ds cs) (st_boxes st)).
   assert (Hboxes1 : Forall (fun nb => box_ok (snd nb)) bs1)
     by (apply Forall_set_box; [exact Hb|apply box_ok_delivered, Hokd]).
   assert (Hmd1 : st_bk st = Maildir -> maildir_ok bs1).
   { intros Hk. apply (maildir_ok_set_box _ _ d); [apply Hm, Hk|exact Ed|reflexivity|].
     cbn [delivered b_msgs]. destruct (maildir_flags _ _ _ (Hm Hk) Ed) as [_ HF].
-    apply Forall_app. split; [exact HF|]. apply copies_flags.
-    rewrite (maildir_same_perm _ _ _ _ _ (Hm Hk) Ed Hl).
-    destruct (Hmd Hk) as [_ HFb]. rewrite Forall_forall in *. intros c Hc. apply HFb, Hcs, Hc. }
+    apply Forall_app. split; [exact HF|]. apply copies_flags, Hk. }
   (* the source mailbox after the copies were delivered *)
   assert (Hb1 : exists b1 new1, lookup (s_box s) bs1 = Some b1 /\ b_msgs b1 = b_msgs b ++ new1 /\
                  (forall n, In n new1 -> ~ In (m_uid n) (uids_of (b_msgs b))) /\
                  b_perm b1 = b_perm b /\
                  (if s_box s =? dest then new1 = new else new1 = [])).
   { destruct (s_box s =? dest) eqn:Ebox.
-    - apply N.eqb_eq in Ebox. exists (delivered d ds cs), new. unfold bs1. subst dest.
+    - apply N.eqb_eq in Ebox. exists (delivered (st_bk st) d ds cs), new. unfold bs1. subst dest.
       rewrite Hl in Ed. inversion Ed; subst d. rewrite lookup_set_box_same, Hl.
       repeat split. intros n Hn.
-      apply (copies_fresh b (b_maxuid b + 1) (negb ds) cs n Hok); [lia|exact Hn].
+      apply (copies_fresh (st_bk st) (b_perm b) b (b_maxuid b + 1) (negb ds) cs n Hok); [lia|exact Hn].
     - apply N.eqb_neq in Ebox. exists b, []. unfold bs1. rewrite lookup_set_box_other by congruence.
       rewrite app_nil_r. repeat split; auto; try (intros n []). }
   destruct Hb1 as (b1 & new1 & Hl1 & Hm1 & Hfresh1 & Hp1 & Hnew1).
@@ -569,4 +483,152 @@ Proof.
       rewrite Forall_forall in *. intros m Hi. apply filter_In in Hi. apply HF, Hi.
     + exists b2. cbn [s_box s_view s_perm]. rewrite lookup_set_box_same, Hl1. repeat split.
       cbn [b2 b_perm set_msgs]. rewrite Hp1. exact Hp.
+Qed.
+
+(* ------------------------------------------------------- APPEND, MULTIAPPEND *)
+Definition as_msgs (msgs : list amsg) : list msg :=
+  map (fun a => mkMsg 0 (diff (am_flags a) [FRecent]) (am_date a) (am_cid a) false) msgs.
+
+Lemma new_msgs_copies bk perm rc msgs : forall u,
+  new_msgs bk perm u rc msgs = copies_from bk perm u rc (as_msgs msgs).
+Proof. induction msgs as [|a r IH]; intros u; cbn; [reflexivity|]. rewrite IH. reflexivity. Qed.
+
+Lemma before_failure_all msgs : existsb am_fail msgs = false -> before_failure msgs = msgs.
+Proof.
+  induction msgs as [|a r IH]; cbn; [reflexivity|]. destruct (am_fail a); [discriminate|].
+  cbn. intros H. rewrite IH by exact H. reflexivity.
+Qed.
+
+(* the loop stores the messages before the first failing one *)
+Lemma append_loop_spec bk ds : forall msgs b rec,
+  append_loop bk ds b rec msgs =
+  (delivered bk b ds (as_msgs (before_failure msgs)),
+   (if ds then fold_left (fun r u => add_recent u r)
+                         (uids_of (copies_from bk (b_perm b) (b_maxuid b + 1) (negb ds)
+                                               (as_msgs (before_failure msgs)))) rec
+    else rec),
+   uids_of (copies_from bk (b_perm b) (b_maxuid b + 1) (negb ds) (as_msgs (before_failure msgs))),
+   existsb am_fail msgs).
+Proof.
+  induction msgs as [|a r IH]; intros b rec; cbn [append_loop before_failure existsb].
+  - unfold delivered. cbn [as_msgs map copies_from length uids_of]. rewrite app_nil_r, N.add_0_r.
+    replace (mkBox (b_msgs b) (b_maxuid b) (b_ro b) (b_perm b) (b_uidv b)) with b by (destruct b; reflexivity).
+    destruct ds; reflexivity.
+  - destruct (am_fail a) eqn:Ef; cbn [orb].
+    + unfold delivered. cbn [as_msgs map copies_from length uids_of]. rewrite app_nil_r, N.add_0_r.
+      replace (mkBox (b_msgs b) (b_maxuid b) (b_ro b) (b_perm b) (b_uidv b)) with b by (destruct b; reflexivity).
+      destruct ds; reflexivity.
+    + cbn [mb_add]. rewrite IH. cbn [as_msgs map]. fold (as_msgs (before_failure r)).
+      set (c := mkMsg 0 (diff (am_flags a) [FRecent]) (am_date a) (am_cid a) false).
+      change (mkBox (b_msgs b ++ [mkMsg (b_maxuid b + 1) (storable bk (b_perm b) (diff (am_flags a) [FRecent]))
+                                         (am_date a) (am_cid a) (negb ds)])
+                    (b_maxuid b + 1) (b_ro b) (b_perm b) (b_uidv b))
+        with (fst (mb_add b (storable bk (b_perm b) (m_flags c)) (m_date c) (m_cid c) (negb ds))).
+      rewrite delivered_cons.
+      cbn [mb_add fst b_maxuid b_perm copies_from uids_of map fold_left].
+      destruct ds; reflexivity.
+Qed.
+
+Lemma delivered_then_deleted bk b ds cs : box_ok b ->
+  mb_delete (delivered bk b ds cs)
+            (uids_of (copies_from bk (b_perm b) (b_maxuid b + 1) (negb ds) cs))
+  = mkBox (b_msgs b) (b_maxuid b + N.of_nat (length cs)) (b_ro b) (b_perm b) (b_uidv b).
+Proof.
+  intros Hok. unfold mb_delete, delivered, set_msgs. cbn [b_msgs b_maxuid b_ro b_perm b_uidv]. f_equal.
+  rewrite filter_app. rewrite filter_all, filter_none; [apply app_nil_r| |].
+  - intros m Hm. apply negb_false_iff, memN_In, in_map, Hm.
+  - intros m Hm. apply negb_true_iff, memN_false. intros Hi. unfold uids_of in Hi.
+    apply in_map_iff in Hi. destruct Hi as (n & En & Hn). apply copies_uids_gt in Hn.
+    pose proof (uids_le_maxuid b m Hok Hm). lia.
+Qed.
+
+Lemma as_msgs_length msgs : length (as_msgs msgs) = length msgs.
+Proof. apply map_length. Qed.
+
+Lemma sim_append st box msgs : Inv st -> sim_ok st (CAppend box msgs).
+Proof.
+  intros HI. unfold sim_ok. cbn [step spec_step]. unfold do_append, spec_append.
+  cbn [abs sp_sel sp_boxes sp_bk].
+  destruct (lookup box (st_boxes st)) as [b|] eqn:El; [|trivial_sim HI].
+  destruct (b_ro b) eqn:Ero; [trivial_sim HI|].
+  assert (Eds : sdest_selected (abs st) box = dest_selected st box).
+  { unfold sdest_selected, dest_selected, abs. cbn [sp_sel]. destruct (st_sel st); reflexivity. }
+  rewrite Eds. set (ds := dest_selected st box).
+  rewrite append_loop_spec. cbn iota beta.
+  destruct HI as (Hb & Hm & Hs).
+  pose proof (Forall_lookup box_ok _ _ _ Hb El) as Hok.
+  destruct (existsb am_fail msgs) eqn:Efail.
+  - (* a message made the backend raise: nothing stays, the connection ends *)
+    rewrite delivered_then_deleted by exact Hok. rewrite as_msgs_length, Ero.
+    cbn [fst snd]. split; [reflexivity|split; [reflexivity|]].
+    split; [|split]; unfold set_sel; cbn [st_boxes st_bk st_sel].
+    + apply Forall_set_box; [exact Hb|]. destruct Hok as [H1 H2]. split; cbn [b_msgs b_maxuid]; [exact H1|].
+      eapply Forall_impl; [|exact H2]. cbn. intros; lia.
+    + intros Hk. apply (maildir_ok_set_box _ _ b); [apply Hm, Hk|exact El|reflexivity|].
+      cbn [b_msgs]. apply (maildir_flags _ _ _ (Hm Hk) El).
+    + exact I.
+  - rewrite (before_failure_all msgs Efail).
+    rewrite !new_msgs_copies.
+    set (cs := as_msgs msgs).
+    set (new := copies_from (st_bk st) (b_perm b) (b_maxuid b + 1) (negb ds) cs).
+    assert (Eb' : mkBox (b_msgs b ++ new) (b_maxuid b + N.of_nat (length msgs)) (b_ro b) (b_perm b) (b_uidv b)
+                  = delivered (st_bk st) b ds cs).
+    { unfold delivered. fold new. unfold cs. rewrite as_msgs_length. reflexivity. }
+    rewrite Ero in Eb'. rewrite Eb'. clear Eb'.
+    set (b' := delivered (st_bk st) b ds cs).
+    assert (Hok' : box_ok b') by (apply box_ok_delivered, Hok).
+    assert (Hboxes : Forall (fun nb => box_ok (snd nb)) (set_box box b' (st_boxes st)))
+      by (apply Forall_set_box; assumption).
+    assert (Hmd' : st_bk st = Maildir -> maildir_ok (set_box box b' (st_boxes st))).
+    { intros Hk. apply (maildir_ok_set_box _ _ b); [apply Hm, Hk|exact El|reflexivity|].
+      cbn [b' delivered b_msgs]. destruct (maildir_flags _ _ _ (Hm Hk) El) as [_ HF].
+      apply Forall_app. split; [exact HF|]. apply copies_flags, Hk. }
+    destruct (st_sel st) as [s|] eqn:Es; cbn [option_map].
+    2:{ cbn [fst snd]. split; [reflexivity|split; [reflexivity|]].
+        split; [exact Hboxes|split; [exact Hmd'|exact I]]. }
+    cbn [abs_sel ss_box ss_ro ss_recent].
+    destruct Hs as (sb & Hls & Hv & Hp). rewrite Hls.
+    set (rec := if ds then fold_left (fun r u => add_recent u r) (uids_of new) (s_recent s) else s_recent s).
+    destruct (s_box s =? box) eqn:Ebox.
+    + (* delivered into the selected mailbox *)
+      apply N.eqb_eq in Ebox. subst box. rewrite El in Hls. inversion Hls; subst sb.
+      rewrite lookup_set_box_same, El.
+      assert (Hlt : b_maxuid b < b_maxuid b + 1) by lia.
+      assert (Hfin := finish_remove_add b' s (fun _ => true) new rec false []).
+      rewrite Hv in Hfin. specialize (Hfin (box_ok_NoDup b Hok)).
+      rewrite filter_true in Hfin. specialize (Hfin eq_refl).
+      specialize (Hfin (fun x Hx => copies_fresh _ _ b _ _ _ x Hok Hlt Hx)).
+      assert (Hr : forall x, In x (b_msgs b) -> true = true -> memN (m_uid x) rec = true ->
+                             memN (m_uid x) (s_recent s) = true).
+      { intros x Hx _. unfold rec. destruct ds; [|auto]. rewrite memN_fold_add_recent.
+        replace (memN (m_uid x) (uids_of new)) with false; [rewrite orb_false_r; auto|].
+        symmetry. apply memN_false. intros Hi. unfold uids_of in Hi. apply in_map_iff in Hi.
+        destruct Hi as (n & En & Hn). apply (copies_fresh _ _ b _ _ _ n Hok Hlt Hn).
+        rewrite En. apply in_map, Hx. }
+      specialize (Hfin Hr eq_refl). cbn zeta in Hfin.
+      rewrite finish_rec_keep in Hfin.
+      2:{ intros x Hx. cbn [b' delivered b_msgs]. rewrite uids_of_app. apply in_or_app. left. exact Hx. }
+      rewrite Hfin. clear Hfin. rewrite expunge_lines_none. cbn [app fst snd b' delivered b_msgs].
+      fold new. split; [reflexivity|split; [reflexivity|]].
+      split; [exact Hboxes|split; [exact Hmd'|]]. unfold set_sel. cbn [st_sel st_boxes].
+      exists b'. cbn [s_box s_view s_perm]. rewrite lookup_set_box_same, El. repeat split. exact Hp.
+    + (* delivered elsewhere: the selection sees nothing *)
+      apply N.eqb_neq in Ebox. rewrite lookup_set_box_other by congruence. rewrite Hls.
+      assert (Eds' : ds = false).
+      { unfold ds, dest_selected. rewrite Es. apply andb_false_iff. right. apply N.eqb_neq, Ebox. }
+      clearbody ds. subst ds. unfold rec. cbn [negb] in *.
+      pose proof (Forall_lookup box_ok _ _ _ Hb Hls) as Hoks.
+      assert (Hfin := finish_remove_add sb s (fun _ => true) [] (s_recent s) false []).
+      rewrite Hv in Hfin. specialize (Hfin (box_ok_NoDup sb Hoks)).
+      rewrite filter_true, app_nil_r in Hfin.
+      specialize (Hfin eq_refl (fun x H => match H with end) (fun x _ _ H => H) eq_refl).
+      cbn zeta in Hfin. rewrite finish_rec_keep in Hfin by auto.
+      rewrite Hfin. clear Hfin. rewrite expunge_lines_none, arrivals_none. cbn [app].
+      unfold recent_line. rewrite N.eqb_refl. cbn [fst snd].
+      split; [reflexivity|split].
+      * unfold abs, set_sel, sset. cbn [st_bk st_boxes st_sel option_map abs_sel s_box s_ro s_recent].
+        reflexivity.
+      * split; [exact Hboxes|split; [exact Hmd'|]]. unfold set_sel. cbn [st_sel st_boxes].
+        exists sb. cbn [s_box s_view s_perm]. rewrite lookup_set_box_other by congruence.
+        repeat split; assumption.
 Qed.
